@@ -50,6 +50,21 @@ package hclsyntax
 // verif:func (*Block).DefRange
 //@ pure
 
+// The range of a structural node is what the parser recorded for it; a block extends from its type
+// name to its closing brace (hclwrite's loader partitions the token stream by these ranges: C10, C14).
+// verif:func (*Block).Range
+//@ pure
+//@ props C04,C10,C14
+//@ ensures whole: ret.Filename == b.TypeRange.Filename && ret.Start == b.TypeRange.Start && ret.End == b.CloseBraceRange.End
+// verif:func (*Attribute).Range
+//@ pure
+//@ props C04,C10,C14
+//@ ensures ret == a.SrcRange
+// verif:func (*Body).Range
+//@ pure
+//@ props C04,C10,C14
+//@ ensures ret == b.SrcRange
+
 // verif:func (*Block).AsHCLBlock
 //@ nilrecv
 //@ assigns nothing
